@@ -176,11 +176,6 @@ def gen_graph(rng, size):
             else:
                 d["ty"] = rand_type(rng, refpool + ([n] if rng.random() < 0.1 else []))
             defs.append(d)
-    # aliases of one name live in one file: "first alias of the workspace list" must not depend on map order
-    afile = {}
-    for d in defs:
-        if d["kind"] == "a":
-            d["file"] = afile.setdefault(d["name"], d["file"])
     rng.shuffle(defs)
     # glue some neighbours of the same file into one comment block (never two aliases/classes that would
     # reorder same-named definitions: class before alias is what generateNewType does anyway)
@@ -212,7 +207,14 @@ def start_of(rng, defs, nfiles, pool, refpool):
     cnt = sum(1 for d in defs if d["file"] == f0)
     slot = cnt if rng.random() < 0.7 else rng.randint(0, cnt)
     r = rng.random()
-    if r < 0.5:
+    cls = [d for d in defs if d["kind"] == "c" and d["parents"]]
+    if r < 0.12 and cls:
+        d = rng.choice(cls)                     # a parent first, then the class itself (or the other way round)
+        pair = [rng.choice(d["parents"]), d["name"]]
+        if rng.random() < 0.5:
+            pair.reverse()
+        ty = "|".join("n%d" % x for x in pair)
+    elif r < 0.5:
         ty = "n%d" % rng.choice(pool)
     elif r < 0.6:
         ty = "n%d[]" % rng.choice(pool)
@@ -248,6 +250,32 @@ def order_safe(defs, f0):
             if n in multi and d["file"] in files_of[n]:
                 return False
     return True
+
+
+def order_safe_case(case):
+    defs, nfiles, f0, slot, q, ty, univ = parse_case(case)
+    afile = {}
+    for d in defs:
+        if d["kind"] == "a" and afile.setdefault(d["name"], d["file"]) != d["file"]:
+            return False            # "first alias of the workspace list" would depend on the map order
+    return order_safe(defs, f0)
+
+
+def stable_filter(cases):
+    """Keep the cases whose answer cannot depend on the iteration order of the Go map that collects the
+    declarations of all files (rebuidCreateTypeMap): decided by the extracted model, evaluated under every order of
+    the files (driver leg c15.stable).  Without a built driver fall back to the syntactic condition order_safe."""
+    cases = list(cases)
+    exe = os.path.join(vlib.OCAML_BUILD, "c15_run")
+    if not os.path.exists(exe):
+        return [c for c in cases if order_safe_case(c)]
+    out = vlib.run_worker([exe, "c15.stable"], cases, 0.05)
+    keep = []
+    for c, o in zip(cases, out):
+        v = o.split("\t")[0]
+        if v == "1" or (v != "0" and order_safe_case(c)):      # a stale driver without the helper: fall back
+            keep.append(c)
+    return keep
 
 
 def has_alias_cycle_risk(defs):
@@ -293,6 +321,22 @@ def shapes():
     # class reached as parent first and through an alias later, and the other way round
     add([C(T, [T + 2], [F]), A(T + 1, n(T + 2)), C(T + 2, [T + 3], [F + 1]), C(T + 3, [], [F + 2])], n(T) + "|" + n(T + 1))
     add([C(T, [T + 2], [F]), A(T + 1, n(T + 2)), C(T + 2, [T + 3], [F + 1]), C(T + 3, [], [F + 2])], n(T + 1) + "|" + n(T))
+    # a cycle BELOW the start (none of its names is in the name-visited map): only the definition list stops it
+    add([C(T, [T + 1], [F]), C(T + 1, [T + 2], [F + 1]), C(T + 2, [T + 1], [F + 2])], n(T))
+    add([C(T, [T + 1], [F], file=0), C(T + 1, [T + 2], [F + 1], file=1), C(T + 2, [T + 1], [F + 2], file=2)], n(T), f0=3)
+    add([A(T, n(T + 1)), C(T + 1, [T + 2, T + 1], [F + 1]), C(T + 2, [T + 2, T + 1], [F + 2])], n(T))
+    # a parent that is already in the name-visited map is skipped, the parents after it are not
+    add([C(T, [T + 1, T + 2], [F]), C(T + 1, [], [F + 1]), C(T + 2, [], [F + 2])], n(T + 1) + "|" + n(T))
+    add([C(T, [T + 1, T + 2], [F], file=0), C(T + 1, [], [F + 1], file=1), C(T + 2, [], [F + 2], file=1)],
+        n(T + 1) + "|" + n(T), f0=2)
+    add([C(T, [ANY, T + 2], [F]), C(T + 2, [], [F + 2])], n(T))
+    add([C(T, [ANY, T + 2], [F], file=0), C(T + 2, [], [F + 2], file=0)], n(T), f0=1)
+    # one half of a split class reached from its own file first (single best declaration), the whole class later
+    # from another file: the already visited half is skipped, the other half still visited
+    add([C(T + 1, [T], [F + 2], file=0), C(T, [], [F], file=0), C(T, [], [F + 1], file=1), C(T + 2, [T], [F + 3], file=2)],
+        n(T + 1) + "|" + n(T + 2), f0=2)
+    add([C(T + 1, [T], [F + 2], file=0), C(T, [], [F], file=0), C(T, [], [F + 1], file=1), C(T + 2, [T], [F + 3], file=2)],
+        n(T + 2) + "|" + n(T + 1), f0=2)
     # array and table wrappers, through aliases
     add([C(T, [T + 1], [F]), C(T + 1, [], [F + 1])], n(T) + "[]")
     add([C(T, [T + 1], [F]), C(T + 1, [], [F + 1])], "t<n3," + n(T) + ">", q="MIKDP")
@@ -334,15 +378,12 @@ def shapes():
 # ----------------------------------------------------------------------------- leg generator / shrinker
 
 def gen_members(rng, tier):
-    n = {"quick": 300, "thorough": 20000, "search": 400}[tier]
+    n = {"quick": 2500, "thorough": 50000, "search": 3000}[tier]
     out = list(shapes())
     for k in range(n):
         size = rng.choice([2, 3, 3, 4, 5, 6, 8])
-        while True:
-            defs, nfiles, pool, refpool, fpool = gen_graph(rng, size)
-            f0, nf, slot, ty = start_of(rng, defs, nfiles, pool, refpool)
-            if order_safe(defs, f0):
-                break
+        defs, nfiles, pool, refpool, fpool = gen_graph(rng, size)
+        f0, nf, slot, ty = start_of(rng, defs, nfiles, pool, refpool)
         univ = fpool + [fpool[-1] + 1]
         r = rng.random()
         q = "MIKD" if r < 0.75 else ("MIKDP" if r < 0.9 else rng.choice(["M", "MI", "MK", "MD", "P"]))
@@ -350,7 +391,7 @@ def gen_members(rng, tier):
         if has_alias_cycle_risk(defs) and rng.random() < 0.5:
             # the same workspace asked for plain members only: must answer even when indexing would overflow
             out.append(layout(defs, nf, f0, slot, "M", ty, univ))
-    return out
+    return stable_filter(out)
 
 
 def shrink_members(case):
@@ -405,10 +446,12 @@ def shrink_members(case):
 
 def _shrink(case):
     seen = set()
+    cands = []
     for c in shrink_members(case):
         if c and c != case and c not in seen:
             seen.add(c)
-            yield c
+            cands.append(c)
+    return stable_filter(cands)
 
 
 def nontrivial(case):
